@@ -514,10 +514,12 @@ class MPSBackendImpl:
             return
 
         basename = self.autosave_file
-        with open(basename.with_suffix(".new"), "wb") as file_handle:
+        # append, never replace, the suffix: the temporary name differs from every advertised name
+        temporary = basename.with_name(basename.name + ".new")
+        with open(temporary, "wb") as file_handle:
             pickle.dump(self, file_handle)
         # atomic: the advertised file is always the previous or the new snapshot
-        os.replace(basename.with_suffix(".new"), basename)
+        os.replace(temporary, basename)
         autosave_filesize = os.path.getsize(self.autosave_file) / 1e6
 
         self.last_save_time = time.time()
